@@ -217,11 +217,13 @@ def apply_directives(body, directives, unit):
             else:
                 body.insert(toks[e].end, "\n" + val + "\n")
             continue
-        m = re.fullmatch(r"closure(\d+)\.(sig|sigd)", key)
+        m = re.fullmatch(r"closure(\d+)\.(sig|sigd)(\?)?", key)
         if m:
             if closures is None:
                 closures = body.closures()
             k = int(m.group(1))
+            if k >= len(closures) and m.group(3):
+                continue        # `closureK.sig?`: a closure a repair introduced; without it the body is judged as it stands
             if k >= len(closures):
                 raise LostAnchor(f"{body.qual}: closure #{k} not found ({len(closures)} closures)")
             st, pe, bs, be = closures[k]
